@@ -292,6 +292,7 @@ def run(prop, res, tier, seed):
     run_prelude_named(res, rng, tier)
     run_use_shadow(res, rng, tier)
     run_same_named_across_modules(res, rng, tier)
+    run_local_named_like_function(res, rng, tier)
     # 2. programs
     stats, vstats = run_programs(res, rng, 40 if tier == "quick" else 1200, tier)
     if vstats["expected_rejected"] > 0.5 * max(1, vstats["expected_ok"] + vstats["expected_rejected"]):
@@ -429,6 +430,64 @@ def run_use_shadow(res, rng, tier):
                                   f"`{needle}` is shown as `{shown}`, Gleam's type is `{want[needle]}`",
                                   {"texts": {"m1": text}, "binder": needle, "shown": shown, "expected": want[needle]})
                 break
+
+
+def run_local_named_like_function(res, rng, tier):
+    """a polymorphic function with a LOCAL binder (case pattern, let pattern, lambda parameter, use pattern) spelled like a
+    top-level function that (directly or through another function) calls it at a concrete type: the local is not that function, the
+    polymorphic function stays polymorphic and is used at two different types.  Types fixed by the construction; items in random order."""
+    names = ["value", "item", "inner", "acc", "x1", "go"]
+    for kind in ("case", "let", "lambda", "use"):
+        for nm in (names if tier != "quick" else rng.sample(names, 2)):
+            for via in (False, True):
+                if kind == "case":
+                    poly = f"pub fn unwrap(result, default) {{\n  case result {{\n    Ok({nm}) -> {nm}\n    Error(_) -> default\n  }}\n}}\n"
+                    pty, call1, call2, t1, t2 = "fn(Result(a, b), a) -> a", "unwrap(Ok(1), 0)", 'unwrap(Error(Nil), "d")', "Int", "String"
+                    pname, needle, d = "unwrap", f"Ok({nm})", 3
+                elif kind == "let":
+                    poly = f"pub fn first(pair) {{\n  let #({nm}, _) = pair\n  {nm}\n}}\n"
+                    pty, call1, call2, t1, t2 = "fn(#(a, b)) -> a", 'first(#(1, "s"))', 'first(#("x", 2.5))', "Int", "String"
+                    pname, needle, d = "first", f"let #({nm}", 6
+                elif kind == "lambda":
+                    poly = f"pub fn through(x) {{\n  let f = fn({nm}) {{ {nm} }}\n  f(x)\n}}\n"
+                    pty, call1, call2, t1, t2 = "fn(a) -> a", "through(1.5)", "through([1])", "Float", "List(Int)"
+                    pname, needle, d = "through", f"fn({nm})", 3
+                else:
+                    poly = f"pub fn with(x, k) {{\n  k(x)\n}}\n\npub fn viause(x) {{\n  use {nm} <- with(x)\n  {nm}\n}}\n"
+                    pty, call1, call2, t1, t2 = "fn(a) -> a", "viause(1)", 'viause("s")', "Int", "String"
+                    pname, needle, d = "viause", f"use {nm}", 4
+                if via:
+                    q = f"pub fn {nm}() {{\n  helper_of_{nm}()\n}}\n"
+                    q2 = f"pub fn helper_of_{nm}() {{\n  {call1}\n}}\n"
+                else:
+                    q, q2 = f"pub fn {nm}() {{\n  {call1}\n}}\n", ""
+                other = f"pub fn other_use() {{\n  {call2}\n}}\n"
+                items = [x for x in (poly, q, q2, other) if x]
+                rng.shuffle(items)
+                text = "\n".join(items)
+                want = {f"pub fn {pname}(": (7, pty), f"pub fn {nm}(": (7, f"fn() -> {t1}"), "pub fn other_use(": (7, f"fn() -> {t2}"), needle: (d, "a")}
+                lines = ["ws-begin", f"file\t/w/p/src/m1.gleam\t{hexs(text)}", "file\t/w/p/gleam.toml\t" + hexs('name = "p"\n'), "root\t/w/p\t0,1", "pkg\tp\t1\t1\t-", "ws-end"]
+                probes = list(want)
+                for n_ in probes:
+                    lines.append(f"hover\t0\t{len(text[:text.index(n_) + want[n_][0]].encode())}")
+                out, rc = common.run_lines(common.HARNESS_BIN, lines)
+                res.cov["evaluations"] += len(probes)
+                if len(out) != len(lines):
+                    continue
+                for n_, a in zip(probes, out[-len(probes):]):
+                    shown = strip_md(unhexs(a.split(" ", 1)[1])) if " " in a else None
+                    if shown is None:
+                        continue
+                    try:
+                        same = gen_types.canon_gens(gen_types.parse_type(shown)) == gen_types.canon_gens(gen_types.parse_type(want[n_][1]))
+                    except Exception:
+                        same = re.sub(r"\s+", "", shown) == re.sub(r"\s+", "", want[n_][1])
+                    if not same:
+                        res.add_violation("C09/wrong-type/local-named-like-a-function-that-calls-its-own-function",
+                                          f"a {kind} binder `{nm}` inside polymorphic `{pname}`, and a top-level `fn {nm}` that calls `{pname}`{' through a helper' if via else ''}: "
+                                          f"at `{n_}` glas shows `{shown}`, Gleam's type is `{want[n_][1]}`",
+                                          {"texts": {"m1": text}, "binder": n_, "shown": shown, "expected": want[n_][1]})
+                        break
 
 
 def replay(prop, path):
